@@ -20,7 +20,7 @@ from typing import (
 from pyplumio.helpers.event_manager import Callback
 from pyplumio.helpers.parameter import Parameter
 
-UNDEFINED: Final = "undefined"
+UNDEFINED: Final = object()
 TOLERANCE: Final = 0.1
 
 
